@@ -68,6 +68,9 @@ SInit(c) == [pc |-> IF c.maxAtt = 0 THEN "zeroexh" ELSE "top",
              lk |-> "-", lcause |-> "-", lid |-> None, lra |-> None,
              ck |-> "-", ccause |-> "-", cra |-> None,    \* failure being processed
              cout |-> "-",                                \* outcome of the last invocation
+             eobj |-> None,    \* identity of the exception object raised last (= the attempt that
+                               \* raised it first: "excsame" raises the same object again)
+             cobj |-> None,    \* identity of the object describing the failure being processed
              stop |-> "-", bq |-> BudM!UInit, epoch |-> 0, sl |-> None,
              dkind |-> "-", own |-> FALSE, abn |-> 0]
 
@@ -147,7 +150,7 @@ Err(cause) == cause = "exception"
 \* unknown_attempts is only incremented when the per-class and non-retryable
 \* checks did not already stop the run
 NotedFor(c, s, k, cause, ra) ==
-    LET s0 == [s EXCEPT !.lk = k, !.lcause = cause, !.lid = s.att, !.lra = ra,
+    LET s0 == [s EXCEPT !.lk = k, !.lcause = cause, !.lid = s.cobj, !.lra = ra,
                         !.cnt[k] = @ + 1]
         capped == c.lim[k] # None /\ s0.cnt[k] > c.lim[k]
     IN  IF k = "UNKNOWN" /\ ~capped THEN [s0 EXCEPT !.unk = @ + 1] ELSE s0
@@ -162,7 +165,10 @@ PollTop(c, s) ==
 Invoke(c, s) ==
     IF (s.pc = "top" /\ ~c.abort) \/ s.pc = "invoke" THEN
         { <<EvInvoke(s.att, s.now, o.out, o.k, o.ra, d),
-            LET s1 == [s EXCEPT !.now = s.now + d, !.ninv = s.att,
+            LET obj == IF o.out = "excsame" /\ s.eobj # None THEN s.eobj ELSE s.att
+                s1 == [s EXCEPT !.now = s.now + d, !.ninv = s.att,
+                                !.eobj = IF o.out \in {"exc", "excsame"} THEN obj ELSE @,
+                                !.cobj = obj,
                                 !.ck = o.k, !.cra = o.ra, !.cout = o.out,
                                 !.ccause = IF o.out \in {"exc", "excsame"} THEN "exception"
                                            ELSE IF o.out = "res" THEN "result" ELSE "-"]
@@ -200,7 +206,7 @@ PollFail(c, s) ==
 
 Classify(c, s) ==
     IF s.pc = "classify" THEN
-        { <<EvClassify(s.att, s.ck, s.cra, s.now), [s EXCEPT !.pc = "handle"]>> }
+        { <<EvClassify(s.cobj, s.ck, s.cra, s.now), [s EXCEPT !.pc = "handle"]>> }
     ELSE {}
 
 \* _handle_failure: either a stop event or the strategy call
